@@ -15,10 +15,12 @@ STE == D("st", <<>>, <<>>, 1, 1, 0)
 STN == D("st", <<>>, <<>>, 0, 0, 0)
 MenuQuick == {WG1, WG0, WC1, RG, STG, STC}
 FollowQuick == {WC1, STN}
-MenuThorough == {WG1, WG2, WG0, WC1, RG, RC, STG, STC, STB, STE, STN}
-FollowThorough == {RG, RC, WC1, WG1, STG, STB}
-MenuSim == MenuThorough
-FollowSim == FollowThorough
+MenuThorough == {WG1, WG2, WG0, WC1, RG, RC, STG, STC, STB, STN}
+FollowThorough == {RG, WC1, STC}
+MenuSim == {WG1, WG2, WG0, WC1, RG, RC, STG, STC, STB, STE, STN}
+FollowSim == {RG, RC, WC1, WG1, STG, STB}
+MenuTour == {WG1, WC1, RG, STB, STN}
+FollowTour == {WC1}
 ReadDataQuick == {<<9, 1>>}
 ReadDataThorough == {<<9, 1>>, <<0, 0>>}
 BugsNone == {}
